@@ -87,6 +87,10 @@ pub fn describe_wrapped(w: &r3::Wrapped) -> String {
 pub fn run(ctx: &mut Ctx) {
     let fams = dfam::build_depth(ctx.quick(), if ctx.quick() { 0 } else { 2 });
     let env = Env::new();
+    // copies run with an allocator that pre-fills every block: what a duplicate forgot to carry over is then a known,
+    // wrong value in every repetition (not whatever malloc happened to return)
+    let mut env_fill = Env::new();
+    env_fill.guarded_alloc = Some(0xC3);
     let sel = dfam::Sel { tiny: true, shapes: true, big: true, sweep: true, shape_cfg_stride: if ctx.quick() { 7 } else { 1 } };
     dfam::for_each(ctx, &fams, sel, |ctx, it| {
         ctx.case(
@@ -106,7 +110,7 @@ pub fn run(ctx: &mut Ctx) {
                 if it.sched.tail_room != AMPLE && it.sched.tail_room >= 2 && t.calls.len() > 3 && (it.sched_idx + it.inp.data.len()) % 5 == 0 {
                     for k in [1usize, 3] {
                         c.exec();
-                        let tk = run_deflate::<Rs>(&it.cfg, &it.inp.data, it.sched, &env, &DExtra { copy_after_call: k, ..Default::default() }, None)?;
+                        let tk = run_deflate::<Rs>(&it.cfg, &it.inp.data, it.sched, &env_fill, &DExtra { copy_after_call: k, ..Default::default() }, None)?;
                         check_roundtrip(c, &env, it, &tk).map_err(|e| format!("continued on a deflateCopy taken after call {k}: {e}"))?;
                         c.exec();
                         let tr = run_deflate::<Rs>(&it.cfg, &it.inp.data, it.sched, &env, &DExtra { reset_after_call: k, ..Default::default() }, None)?;
